@@ -343,13 +343,30 @@ func runC18(c *Ctx) {
 				if s := subs[i]; s != nil && (s.link || s.mon) {
 					everDied = true
 				}
+				prodNotes()
+				beforeDie := liveSubs()
+				mine := 0
+				if s := subs[i]; s != nil {
+					mine = b2i(s.link) + b2i(s.mon)
+				}
 				k.Node.Kill(cpid[i])
 				waitUntilGone(k, cpid[i])
 				alive[i] = false
 				delete(subs, i)
+				note := prodNotes()
+				if !registered {
+					note = "-"
+				}
 				lines = append(lines, fmt.Sprintf("die %d", i))
-				wants = append(wants, "ok")
-				hist = append(hist, fmt.Sprintf("C%d dies", i))
+				wants = append(wants, "unsubscribed "+note)
+				hist = append(hist, fmt.Sprintf("C%d dies -> %s", i, note))
+				if registered && notify {
+					wantStop := mine > 0 && beforeDie == mine
+					if wantStop != (note == "stop") {
+						r.Violation("C18/D21-counter-after-subscriber-death", fmt.Sprintf("a subscriber holding %d of the %d live subscriptions terminated; stop notification sent: %v", mine, beforeDie, note == "stop"),
+							map[string]interface{}{"history": append([]string(nil), hist...)})
+					}
+				}
 			default: // unregister
 				var e error
 				for i := 1; i <= nc; i++ {
